@@ -102,11 +102,14 @@ where
             });
         }
 
-        // Only needed when the rolled-back flush appended (prev_stored_len <
-        // current): any holes/updated in the now-gone range must be dropped.
-        if prev_stored_len < self.stored_len() {
-            self.truncate_dirty_at(prev_stored_len);
-        }
+        // The record is a delta against the last committed state: start from that
+        // state's overlay, not from updates or deletions made since. Otherwise an
+        // uncommitted update leaks into the restored state, and an uncommitted
+        // deletion loses a value that only the overlay still holds.
+        *self.updated.current_mut() = self.prev_updated().clone();
+
+        // Any holes/updated beyond the restored length must be dropped.
+        self.truncate_dirty_at(prev_stored_len);
 
         // Truncated values overlay via `updated` at indices beyond the
         // current on-disk length; the next write() extends the region.
